@@ -352,7 +352,14 @@ func runRaceInProc(kv map[string]string) string {
 		return "ENV " + err.Error()
 	}
 	defer t.stop()
-	y := poolYAML(kind, addr, kv, n, map[string]any{"type": "once", "times": k})
+	rps := map[string]any{"type": "once", "times": k}
+	if kv["do"] == "1" {
+		// a schedule the instances cannot keep up with (the target answers after 40 ms): after two seconds of growing lag
+		// the rest of the schedule is discarded — thousands of "discarded" samples reported by all instances at once
+		t.delayMs.Store(40)
+		rps = map[string]any{"type": "const", "ops": 2000, "duration": "2600ms"}
+	}
+	y := poolYAML(kind, addr, kv, n, rps)
 	if kv["fail"] == "conn" {
 		t.refuse() // every shot fails (the gRPC guns' start-up reflection is a stream and still answered)
 	}
@@ -563,6 +570,8 @@ func runLocal(kv map[string]string) string {
 		return runIsolate(kv)
 	case "ammo":
 		return runAmmo(kv)
+	case "wrap":
+		return runWrap(kv)
 	case "retain":
 		return runRetain(kv)
 	}
@@ -596,7 +605,7 @@ func childBinary() (string, string) {
 func run(input string) string {
 	kv := drv.KV(input)
 	switch kv["mode"] {
-	case "alias", "guns", "handover", "isolate", "ammo", "retain":
+	case "alias", "guns", "handover", "isolate", "ammo", "retain", "wrap":
 		return runDeterministic(input, kv)
 	case "race", "hammer":
 		return runRace(input)
@@ -624,6 +633,12 @@ func class(input, obs string) string {
 			return ""
 		}
 		return "isolate/" + kv["kind"]
+	}
+	if kv["mode"] == "wrap" {
+		if !strings.HasPrefix(obs, "idx=") {
+			return ""
+		}
+		return "wrap/" + kv["obj"]
 	}
 	if kv["mode"] == "retain" {
 		if !strings.HasPrefix(obs, "calls=") {
@@ -881,9 +896,50 @@ func ammoMatrix() []string {
 	return out
 }
 
+// gunOptLetters (round 4): a random non-empty subset of the gun options of pools.go (gunOptions)
+func gunOptLetters(r *rand.Rand, k string) string {
+	if strings.HasPrefix(k, "grpc") {
+		return "a"
+	}
+	out := ""
+	for _, c := range "tdag" {
+		if r.Intn(2) == 0 {
+			out += string(c)
+		}
+	}
+	if out == "" {
+		out = string("tdag"[r.Intn(4)])
+	}
+	return out
+}
+
+// wrapCounters: counter values around the points where an integer representation of some width turns over
+var wrapCounters = []uint64{1<<7 - 3, 1<<8 - 3, 1<<15 - 3, 1<<16 - 3, 1<<31 - 3, 1<<32 - 3, 1<<62 - 3}
+
+func wrapCase(r *rand.Rand, obj string) string {
+	c := wrapCounters[r.Intn(len(wrapCounters))]
+	if r.Intn(4) == 0 {
+		c = uint64(r.Int63n(1 << 62))
+	}
+	return fmt.Sprintf("mode=wrap obj=%s ctr=%d len=%d calls=%d", obj, c, 1+r.Intn(9), 4+r.Intn(6))
+}
+
+func wrapCases(r *rand.Rand, rounds int) []string {
+	var out []string
+	for i := 0; i < rounds; i++ {
+		out = append(out, wrapCase(r, "nextiter"), wrapCase(r, "clientpool"))
+		idx := pick(r, []string{"last", "0", "nosuch", strconv.Itoa(r.Intn(40) - 20), strconv.FormatInt(r.Int63()-r.Int63(), 10)})
+		out = append(out, fmt.Sprintf("mode=wrap obj=index idx=%s len=%d", idx, 1+r.Intn(9)))
+	}
+	return out
+}
+
 // raceVariant: one whole-pool case with a random supported variant of the kind.
 func raceVariant(r *rand.Rand, k string, n, shots int) string {
 	c := fmt.Sprintf("mode=race kind=%s n=%d shots=%d", k, n, shots)
+	if r.Intn(3) == 0 {
+		c += " go=" + gunOptLetters(r, k)
+	}
 	switch k {
 	case "uri", "uripost", "raw", "httpjson":
 		switch r.Intn(4) {
@@ -959,7 +1015,26 @@ func genPlain(r *rand.Rand, tier string) []string {
 			out = append(out, raceCase(k, 4+r.Intn(8), 150, 200, fmt.Sprintf(" steps=%d failat=%d fail=%s agg=phout", steps, 1+r.Intn(steps), pick(r, scenFails[k][2:]))))
 		}
 	}
+	// round 4: the gun's options (trace / dump / answlog / auto-tag, alone and together, with the shared client), the
+	// instance loop's discard branch, and the shared counters at extreme values
+	r4 := rand.New(rand.NewSource(r.Int63()))
+	out = append(out, "mode=alias kind=uri sc=2 go=tdag", "mode=alias kind=httpscen go=ta", "mode=alias kind=grpcjson sc=2 go=a",
+		"mode=handover kind=uri shots=3 go="+gunOptLetters(r4, "uri"), "mode=handover kind=httpscen shots=2 steps=2 failat=2 fail=post go="+gunOptLetters(r4, "httpscen"),
+		fmt.Sprintf("mode=race kind=uri n=8 shots=%d sc=%d go=t", 200+r4.Intn(200), 1+r4.Intn(3)),
+		fmt.Sprintf("mode=race kind=uripost n=6 shots=%d go=%s agg=phout", 200+r4.Intn(200), gunOptLetters(r4, "uripost")),
+		fmt.Sprintf("mode=race kind=httpscen n=6 shots=%d go=a", 150+r4.Intn(100)),
+		fmt.Sprintf("mode=race kind=grpcjson n=6 shots=%d go=a", 150+r4.Intn(100)),
+		fmt.Sprintf("mode=race kind=uri n=%d shots=0 do=1 agg=phout", 2+r4.Intn(3)))
+	out = append(out, "mode=wrap obj=nextiter ctr=2147483645 len=7 calls=6", "mode=wrap obj=clientpool ctr=2147483645 len=3 calls=6")
+	out = append(out, wrapCases(r4, 3)...)
 	if tier == "thorough" {
+		out = append(out, wrapCases(r4, 40)...)
+		for _, k := range []string{"uri", "raw", "httpscen"} {
+			out = append(out, fmt.Sprintf("mode=race kind=%s n=%d shots=0 do=1 agg=phout go=%s", k, 2+r4.Intn(6), gunOptLetters(r4, k)))
+		}
+		for _, k := range kinds {
+			out = append(out, "mode=alias kind="+k+" go="+gunOptLetters(r4, k))
+		}
 		out = append(out, handoverCases(r, 6)...)
 		out = append(out, handoverExhaustive()...)
 		for i := 0; i < 60; i++ {
@@ -1028,7 +1103,14 @@ func genRace(r *rand.Rand, tier string) []string {
 	for _, k := range kinds {
 		out = append(out, raceVariant(r, k, 2+r.Intn(15), 150+r.Intn(250)))
 	}
+	// round 4 (see genPlain)
+	out = append(out, "mode=alias kind=uri sc=1 go=t", "mode=alias kind=uripost go="+gunOptLetters(r, "uripost"),
+		fmt.Sprintf("mode=race kind=httpjson n=%d shots=%d sc=2 go=%s", 3+r.Intn(6), 150+r.Intn(150), gunOptLetters(r, "httpjson")),
+		fmt.Sprintf("mode=race kind=grpcscen n=%d shots=%d go=a", 3+r.Intn(6), 100+r.Intn(100)),
+		fmt.Sprintf("mode=race kind=httpscen n=%d shots=0 do=1 agg=phout", 2+r.Intn(3)))
+	out = append(out, wrapCases(r, 2)...)
 	if tier == "thorough" {
+		out = append(out, wrapCases(r, 20)...)
 		out = append(out, aliasCases()...)
 		out = append(out, handoverCases(r, 6)...)
 		for i := 0; i < 30; i++ {
